@@ -841,6 +841,46 @@ def finalize_model(facts):
 
 
 
+def _shape_args(facts, params, by_type):
+    """arguments for a function from the types of its parameters: a path, a key and an item may arrive as separate parameters, as a tuple or inside a struct of
+    the workspace (`(path, (key, value))` today; `KeyVal { path, key, value }` would be the same call) — each model value goes where its type is asked for"""
+    from .den import Unanalysable
+
+    def of_type(t, depth=0):
+        t = (t or '').replace('&mut ', '').replace('&', '').strip()
+        if t in by_type:
+            return by_type[t]
+        adt = getattr(facts, 'adts', {}).get(t.split('<')[0])
+        if adt and adt.get('kind') == 'struct' and depth < 3:
+            return ('struct', t.split('<')[0], {str(f['name']): of_type(f.get('ty'), depth + 1) for f in adt['variants'][0].get('fields', [])})
+        if t.startswith('(') and t.endswith(')'):
+            parts, cur, dep = [], '', 0
+            for ch in t[1:-1]:
+                if ch in '(<[':
+                    dep += 1
+                if ch in ')>]':
+                    dep -= 1
+                if ch == ',' and dep == 0:
+                    parts.append(cur)
+                    cur = ''
+                else:
+                    cur += ch
+            if cur.strip():
+                parts.append(cur)
+            return tuple(of_type(x, depth + 1) for x in parts)
+        raise Unanalysable(f'a parameter of type `{t}`')
+
+    def of_pat(p):
+        if p.get('k') == 'p_tuple':
+            return tuple(of_pat(x) for x in p['pats'])
+        if p.get('k') in ('p_bind', 'p_wild') and p.get('t'):
+            return of_type(p['t'])
+        if p.get('k') == 'p_struct' and p.get('path'):
+            return of_type(p['path'])
+        raise Unanalysable(f'a parameter pattern `{p.get("k")}`')
+    return [of_pat(p) for p in params]
+
+
 def keyval_model(facts):
     """ParseState::on_keyval evaluated on a model parser state: a `key = value` / `p.key = value` line of the current section.
     Yields (case, outcome) with outcome 'unanalysable: ..' / 'panic: ..' or {'ok', 'inserted' (tags), 'span' (of the current table afterwards)}."""
@@ -876,7 +916,8 @@ def keyval_model(facts):
                     st = _parse_state(facts, it, lambda imp, dot, tag: T(imp, dot, tag))
                     st[2]['current_table'] = T(False, False, 'current', ('range', 10, 19))
                     st[2]['current_table_path'] = VecObj([K('t')])
-                    r = it.apply_fn(b, [st, VecObj([K('p')][:npath]), (K('k'), value)])
+                    r = it.apply_fn(b, [st] + _shape_args(facts, b['params'][1:], {'alloc::vec::Vec<toml_edit::key::Key>': VecObj([K('p')][:npath]), 'toml_edit::key::Key': K('k'),
+                                                                                   'toml_edit::item::Item': value}))
                 except EvalPanic as e:
                     yield case, f'panic: {e}'
                     continue
@@ -910,6 +951,31 @@ def visit_table_model(rep, R, facts):
                 'dotted-key values only': (((key('d'), ('ctor', I + 'Table', (tab(True, True, ((key('d.x'), scal('d.x')),)),))),), 1),
                 'a sub-table only': (((key('s'), ('ctor', I + 'Table', (tab(False, False, ((key('s.x'), scal('s.x')),)),))),), 0)}
     rec = {'open_table_header', 'close_table_header', 'open_array_of_tables_header', 'close_array_of_tables_header', 'keyval_sep', 'prefix_encode', 'suffix_encode', 'write_str'}
+    # how the traversal tells visit_table that a table is a [[table]] element (a bool today; an enum would do as well): what visit_nested_tables hands to its
+    # callback for a plain sub-table and for an element of an array of tables
+    kind_of = {False: False, True: True}
+    pb = [p for p in b.get('params', []) if p.get('k') == 'p_bind']
+    if len(pb) >= 5 and (pb[4].get('t') or 'bool') != 'bool':
+        kind_of = None
+        dn = 'toml_edit::encode::visit_nested_tables'
+        if facts.has_body(dn):
+            try:
+                from .places import PlaceInterp
+                from .den import VecObj
+                from .rules_print import table_model, T as TT, AOT as TAOT
+                seen = []
+                unit_ok = ('ctor', 'core::result::Result::Ok', ((),))
+                cb = ('pyfn', lambda t, p, k: (seen.append((len(getattr(p, 'items', p)), [keyname_(x) for x in getattr(p, 'items', p)], k)), unit_ok)[1])
+                from .places import keyname as keyname_
+                PlaceInterp(Evaluator(facts)).apply_fn(facts.body(dn), [table_model(TT({'plain': TT({}), 'elems': TAOT(TT({}))})), VecObj([]), ('root-kind',), cb])
+                got = {tuple(names): k for _, names, k in seen}
+                if ('plain',) in got and ('elems',) in got and got[('plain',)] != got[('elems',)]:
+                    kind_of = {False: got[('plain',)], True: got[('elems',)]}
+            except (Unanalysable, EvalPanic, TypeError, KeyError, IndexError, AttributeError) as ex:
+                kind_of = None
+        if kind_of is None:
+            rep.incomplete(R, 'visit_table|header kind', 'cannot find out how visit_nested_tables tells visit_table that a table is an element of an array of tables', facts.loc(b))
+            return
     for implicit in (False, True):
         for cname, (kids, nrows) in contents.items():
             for at_root in (True, False):
@@ -917,7 +983,7 @@ def visit_table_model(rep, R, facts):
                     label = f'{"implicit" if implicit else "explicit"} {"[[table]] element" if is_array else "table"} {"at the root" if at_root else "under a path"} holding {cname}'
                     it = RecInterp(Evaluator(facts), rec, {'encode_key_path', 'encode_key_path_ref', 'encode_value'})
                     try:
-                        it.apply_fn(b, [('opaque',), NONE_, tab(False, implicit, kids), () if at_root else (key('t'),), is_array, True])
+                        it.apply_fn(b, [('opaque',), NONE_, tab(False, implicit, kids), () if at_root else (key('t'),), kind_of[is_array], True])
                     except EvalPanic as ex:
                         rep.bad(R, f'visit_table|{label}', f'visit_table panics for an {label}: {ex}', facts.loc(b))
                         continue
